@@ -78,6 +78,24 @@ pub fn place(sig: &[u8], e10: i64, layout: u64, z: usize, s: usize, tag: &'stati
             frac.extend_from_slice(sig);
             Some(Case { int: vec![], frac, exp: i32_of(e10 + (z + n) as i64)?, tag })
         }
+        3 => {
+            // positional ("{}"-style) spelling: exponent 0, the point placed by zero padding
+            if e10.abs() > 1500 {
+                return place(sig, e10, 2, z, s, tag);
+            }
+            if e10 >= 0 {
+                let mut int = sig.to_vec();
+                int.resize(n + e10 as usize, b'0');
+                Some(Case { int, frac: vec![b'0'; z.min(3)], exp: 0, tag })
+            } else if ((-e10) as usize) < n {
+                let k = n - (-e10) as usize;
+                Some(Case { int: sig[..k].to_vec(), frac: sig[k..].to_vec(), exp: 0, tag })
+            } else {
+                let mut frac = vec![b'0'; (-e10) as usize - n];
+                frac.extend_from_slice(sig);
+                Some(Case { int: vec![], frac, exp: 0, tag })
+            }
+        }
         _ => {
             if n < 2 {
                 return place(sig, e10, 0, 0, 0, tag);
@@ -90,7 +108,7 @@ pub fn place(sig: &[u8], e10: i64, layout: u64, z: usize, s: usize, tag: &'stati
 
 pub fn place_random(rng: &mut Rng, sig: &[u8], e10: i64, tag: &'static str) -> Option<Case> {
     let n = sig.len();
-    let layout = rng.below(3);
+    let layout = if rng.chance(1, 6) { 3 } else { rng.below(3) };
     let z = match rng.below(8) {
         0 => rng.below(400) as usize,
         1 => 19,
